@@ -15,3 +15,5 @@ print('retries', r.log.get('solver_budget_retries'))
 if r.log.get('rewrites_not_applicable') or r.log.get('loops_not_present'): print('NOT APPLIED', r.log.get('rewrites_not_applicable'), r.log.get('loops_not_present'))
 print('canary', {k: v for k, v in r.canary.items() if not v})
 print('kept in', keep)
+import shutil
+if getattr(r, 'work', None): shutil.rmtree(r.work, ignore_errors=True)
